@@ -252,6 +252,7 @@ func checkC16(c *Ctx) {
 	checkAddressClassPredicate(c, "C16.R3")
 	checkPolicyWiring(c, "C16.R4")
 	checkSentinelPreserved(c, "C16.R5", pm)
+	checkErrChainPreserved(c, "C16.R5")
 }
 
 func calleeNames(cs []ssa.CallInstruction) string {
@@ -648,4 +649,140 @@ func formatVerbs(f string) []string {
 		}
 	}
 	return out
+}
+
+// checkErrChainPreserved: every error stored into dispatcher.Result.Err keeps its chain — it is a raw error value, an
+// fmt.Errorf that wraps each error argument with %w, or a helper all of whose returns are of these kinds. The dispatcher
+// classifies a delivery by errors.Is(res.Err, ErrPolicyDenied); the sentinel arrives wrapped (by the policy function,
+// by CheckRedirect inside *url.Error), so any flattening between the transport and Result.Err turns a denial into a
+// retryable transport error.
+func checkErrChainPreserved(c *Ctx, rule string) {
+	p := c.P
+	errIface := types.Universe.Lookup("error").Type().Underlying().(*types.Interface)
+	isErr := func(t types.Type) bool { return types.Implements(t, errIface) }
+	var preserving func(v ssa.Value, depth int, seen map[ssa.Value]bool) (bool, string)
+	preserving = func(v ssa.Value, depth int, seen map[ssa.Value]bool) (bool, string) {
+		if v == nil || seen[v] {
+			return true, ""
+		}
+		seen[v] = true
+		if depth > 6 {
+			return false, "provenance too deep"
+		}
+		switch x := v.(type) {
+		case *ssa.Const, *ssa.Parameter, *ssa.Global, *ssa.FreeVar:
+			return true, ""
+		case *ssa.MakeInterface:
+			return preserving(x.X, depth+1, seen)
+		case *ssa.ChangeInterface:
+			return preserving(x.X, depth+1, seen)
+		case *ssa.Phi:
+			for _, e := range x.Edges {
+				if ok, why := preserving(e, depth+1, seen); !ok {
+					return false, why
+				}
+			}
+			return true, ""
+		case *ssa.Extract:
+			return preserving(x.Tuple, depth+1, seen)
+		case *ssa.UnOp:
+			if al, ok := x.X.(*ssa.Alloc); ok {
+				for _, ref := range *al.Referrers() {
+					if st, ok := ref.(*ssa.Store); ok && st.Addr == al {
+						if ok2, why := preserving(st.Val, depth+1, seen); !ok2 {
+							return false, why
+						}
+					}
+				}
+			}
+			return true, "" // field / global load of an error value: returned as is
+		case *ssa.Alloc, *ssa.TypeAssert, *ssa.Field, *ssa.FieldAddr:
+			return true, ""
+		case *ssa.Call:
+			g := x.Call.StaticCallee()
+			if g == nil {
+				return true, "" // dynamic call returning an error: raw
+			}
+			if g.Pkg != nil && g.Pkg.Pkg.Path() == "fmt" && g.Name() == "Errorf" {
+				format, _ := constString(x.Call.Args[0])
+				if cst, isC := x.Call.Args[1].(*ssa.Const); isC && cst.Value == nil {
+					return true, "" // no arguments: a fresh error
+				}
+				elems, ok := varargElems(x.Call.Args[1])
+				if !ok {
+					return false, "fmt.Errorf with a non-literal argument list at " + p.InstrPos(x)
+				}
+				verbs := formatVerbs(format)
+				for i, e := range elems {
+					inner := e
+					if mi, ok := e.(*ssa.MakeInterface); ok {
+						inner = mi.X
+					}
+					if ci, ok := e.(*ssa.ChangeInterface); ok {
+						inner = ci.X
+					}
+					if !isErr(inner.Type()) {
+						continue
+					}
+					vb := ""
+					if i < len(verbs) {
+						vb = verbs[i]
+					}
+					if vb != "w" {
+						return false, fmt.Sprintf("fmt.Errorf at %s formats an error with %%%s instead of %%w", p.InstrPos(x), vb)
+					}
+				}
+				return true, ""
+			}
+			if g.Pkg != nil && g.Pkg.Pkg.Path() == "errors" && g.Name() == "New" {
+				// a fresh error is fine unless it is built from another error's text
+				for _, s := range sourcesOf(x.Call.Args[0]) {
+					if s.Kind == "call" && strings.Contains(s.Desc, ".Error") {
+						return false, "errors.New(err.Error()) at " + p.InstrPos(x) + " drops the chain"
+					}
+				}
+				return true, ""
+			}
+			if IsModuleFunc(g) && len(g.Blocks) > 0 {
+				for _, r := range returnsOf(g) {
+					for _, res := range r.Results {
+						if !isErr(res.Type()) {
+							continue
+						}
+						if ok, why := preserving(res, depth+1, seen); !ok {
+							return false, why + " (in " + g.Name() + ")"
+						}
+					}
+				}
+				return true, ""
+			}
+			return true, "" // library call returning an error: raw
+		}
+		return true, ""
+	}
+	n := 0
+	for _, fn := range p.FuncsInPkg("dispatcher") {
+		for _, b := range fn.Blocks {
+			for _, ins := range b.Instrs {
+				st, ok := ins.(*ssa.Store)
+				if !ok {
+					continue
+				}
+				fa, ok := st.Addr.(*ssa.FieldAddr)
+				if !ok {
+					continue
+				}
+				tn, f, _ := fieldAddrName(fa)
+				if tn != "Result" || f != "Err" {
+					continue
+				}
+				n++
+				ok2, why := preserving(st.Val, 0, map[ssa.Value]bool{})
+				c.Check(ok2, rule, fmt.Sprintf("dispatcher.%s:Result.Err#%d keeps the error chain", fn.Name(), n), p.InstrPos(st),
+					"raw error, %w wrap, or a helper returning those",
+					"the error stored into Result.Err is flattened ("+why+"): errors.Is(res.Err, ErrPolicyDenied) no longer sees a denial raised on a redirect hop, so it is retried and dead-lettered as max_retries instead of policy_denied")
+			}
+		}
+	}
+	c.Floor(rule, "stores to Result.Err", n, 3)
 }
